@@ -255,9 +255,11 @@ def run_case(case):
                 feed(s, ib, timecode)
                 ready.append(s)
             return ready, [], []
-        if timeout == 0 or (timeout is not None and timeout == script.mm.write_timeout):
+        if timeout is not None:
+            # any select with a FINITE timeout sees the round's writability: a connection outside the writable set stays
+            # that way for longer than the caller is prepared to wait (only a wait without limit outlasts it)
             return [], [s for s in w if (not s.closed) and s.cid in script.writable], []
-        # blocking select on a logger connection
+        # blocking select (no time limit) on a logger connection
         for s in w:
             if s.closed:
                 raise ValueError("file descriptor cannot be a negative integer (-1)")
